@@ -81,6 +81,11 @@ LedgerStep(w, w1, call) ==
     [] call.m = "recover" ->
          [led EXCEPT !.honest = @ /\ ~(call.has_sel /\ \E p \in w.c.pk : p.seq \in ToSet(call.sel) /\ p.status = "sent"),
                      !.forced = @ \/ (call.has_sel /\ \E p \in w.c.pk : p.seq \in ToSet(call.sel) /\ p.status = "sent")]
+    [] call.m = "update_config" ->
+         \* re-pointing the staker / channel / staked-asset denom splits the accounting of C01 between two
+         \* native accounts; C01 is stated for one staker, so it is only asserted on histories without this
+         [led EXCEPT !.repointed = @ \/ w1.c.cfg.staker # w.c.cfg.staker \/ w1.c.cfg.channel # w.c.cfg.channel
+                                     \/ w1.c.cfg.natDen # w.c.cfg.natDen]
     [] OTHER -> led
 
 \* ------------------------------------------------------------------ one contract transaction
@@ -170,7 +175,7 @@ Exec(w, call) ==
 ---------------------------------------------------------------------------
 \* The world right after instantiate (contract.rs instantiate + token-factory create-denom)
 EmptyLedgers == [swept |-> 0, radjN |-> 0, radjL |-> 0, paid |-> << >>, wdl |-> << >>, deliv |-> 0,
-                 honest |-> TRUE, forced |-> FALSE]
+                 honest |-> TRUE, forced |-> FALSE, repointed |-> FALSE]
 InitWorld(cfg, admin, now, bank) ==
   [c |-> InitContract(cfg, admin, now), bank |-> bank, sup |-> 0,
    ibc |-> [next |-> 1, fly |-> {}], nat |-> [bal |-> << >>, lst |-> << >>],
@@ -192,12 +197,12 @@ RefSts == {"ackfail", "timeout"}
 
 \* C01: accounting total = forwarded to the staker - set aside for submitted batches - swept
 Inv_C01(w) ==
-  ~w.led.forced =>
+  (~w.led.forced /\ ~w.led.repointed) =>
     w.c.N + MapThenSumSet(LAMBDA b : w.c.batches[b].expected, SubmittedEver(w)) + w.led.swept - w.led.radjN
       = w.led.deliv + PkSum(w, NatDen(w), {w.c.cfg.staker}, AllSts)
 \* ... hence, with an honest operator, the staker holds enough for every outstanding batch
 Inv_C01b(w) ==
-  (w.led.honest /\ ~w.led.forced) =>
+  (w.led.honest /\ ~w.led.forced /\ ~w.led.repointed) =>
     Get(w.nat.bal, w.c.cfg.staker) + PkSum(w, NatDen(w), {w.c.cfg.staker}, AllSts)
       = w.c.N + MapThenSumSet(LAMBDA b : w.c.batches[b].expected, Outstanding(w)) + w.led.swept
 
